@@ -499,6 +499,42 @@ def _nx(n):
     return node_exprs(n)
 
 
+def rule_listbox_zero_row_items(ctx: Ctx) -> RuleResult:
+    """HIDDEN-DEP for the ListBox: calculate_visible() asks every item in the window for its rows and keeps the ones
+    without rows out of the lists render() draws from (`if p_rows:` - 'filter out 0-height widgets').  Such an item
+    was consulted for the layout and is not among the child canvases, so the rendering has to name it as a
+    dependency itself: every such filter records the item it leaves out, and render() hands the record to
+    set_depends().  Before fix 00389c3 nothing did: ListBox([Text a, Pile([]), Text b]) kept showing `a, b` from the
+    cache after the Pile got an item."""
+    p = ctx.p
+    rr = RuleResult("HIDDEN-DEP", "C06.16", "every item ListBox.calculate_visible() leaves out for having no rows is recorded, and render() declares the record as a dependency", floor=2)
+    cv = p.func("urwid.widget.listbox.ListBox.calculate_visible")
+    rn = p.func("urwid.widget.listbox.ListBox.render")
+    records = set()
+    for n in cv.own_nodes():
+        if not (isinstance(n, ast.If) and isinstance(n.test, ast.Name)):
+            continue
+        rows_name = n.test.id
+        # the widget the rows were asked of
+        src = next((a for a in cv.own_nodes() if isinstance(a, ast.Assign) and any(isinstance(t, ast.Name) and t.id == rows_name for t in a.targets) and isinstance(a.value, ast.Call) and isinstance(a.value.func, ast.Attribute) and a.value.func.attr == "rows" and isinstance(a.value.func.value, ast.Name)), None)
+        appends = [c for st in n.body for c in ast.walk(st) if isinstance(c, ast.Call) and isinstance(c.func, ast.Attribute) and c.func.attr == "append"]
+        if src is None or not appends:
+            continue
+        w = src.value.func.value.id
+        rec = [c for st in n.orelse for c in ast.walk(st) if isinstance(c, ast.Call) and isinstance(c.func, ast.Attribute) and c.func.attr == "append" and isinstance(c.func.value, ast.Attribute) and c.args and isinstance(c.args[0], ast.Name) and c.args[0].id == w]
+        rr.inst(f"filter `if {rows_name}:`", True, {"filter": norm(n.test, 20), "item": w, "recorded_in": ast.unparse(rec[0].func.value) if rec else None})
+        if rec:
+            records.add(rec[0].func.value.attr)
+        else:
+            rr.add(finding("HIDDEN-DEP", cv, n, f"`if {rows_name}:` leaves an item without rows out of the visible lists and does not record it: render() cannot declare the dependency, a 0-row item inside the window that gets rows (an empty Pile that is filled) leaves the cached ListBox canvas in place", construct=f"zero-row filter on {rows_name} without a record"))
+    deps = [c for c in rn.own_nodes() if isinstance(c, ast.Call) and isinstance(c.func, ast.Attribute) and c.func.attr == "set_depends"]
+    ok = bool(records) and any(any(isinstance(x, ast.Attribute) and x.attr in records for x in ast.walk(c)) for c in deps)
+    rr.inst("ListBox.render declares the record", True, {"records": sorted(records), "set_depends_calls": len(deps), "declared": ok})
+    if records and not ok:
+        rr.add(finding("HIDDEN-DEP", rn, rn.node, f"calculate_visible() records the items it leaves out ({sorted(records)}) but render() does not hand them to set_depends(): CanvasCache.store() only sees the drawn children", construct="ListBox.render does not declare the zero-row items"))
+    return rr
+
+
 def rule_list_mutators_notify(ctx: Ctx) -> RuleResult:
     """Pile / Columns / GridFlow invalidate themselves from the modified callback of their contents list; the override
     layer (MonitoredFocusList) must keep going through the wrapped MonitoredList method: exactly one super().<same
@@ -537,6 +573,7 @@ def run(ctx: Ctx):
         alias.run_inplace_own(p, "C06.11", ["urwid.canvas"], floor=6, exempt={"shards": "shared on purpose, copy-on-write decided path by path by FRESHLIST (C06.2c)"}),
         rule_depends_on_returned_canvas(ctx),
         rule_list_mutators_notify(ctx),
+        rule_listbox_zero_row_items(ctx),
     ]
     return out
 
@@ -544,6 +581,8 @@ def run(ctx: Ctx):
 from ..mutants import Mut  # noqa: E402
 
 MUTANTS = [
+    Mut("listbox-zero-row-item-not-recorded", "urwid/widget/listbox.py", "ListBox.calculate_visible", "            else:\n                self._zero_row_items.append(next_pos)\n", "", "HIDDEN-DEP|widget.listbox.ListBox.calculate_visible|zero-row filter on n_rows without a record"),
+    Mut("listbox-zero-row-items-not-declared", "urwid/widget/listbox.py", "ListBox.render", "        if self._zero_row_items:\n", "        if False:\n", "HIDDEN-DEP|widget.listbox.ListBox.render|ListBox.render does not declare the zero-row items", also=[("*self._zero_row_items]", "]")]),
     Mut("depends-walk-two-levels", "urwid/canvas.py", "CanvasCache.store", "                    depends.extend(walk_depends(c))", "                    depends.extend(cc.widget_info[0] for _x, _y, cc, _pos in c.children if cc.widget_info)", "PASS|canvas.CanvasCache.store.<locals>.walk_depends|dependency walk does not recurse"),
     Mut("columns-depends-only-on-visible", "urwid/widget/columns.py", "Columns.render", "            canvas.set_depends([w for w, _ in self.contents])", "            canvas.set_depends([w for (w, _), width in zip(self.contents, widths) if width > 0])", "HIDDEN-DEP|widget.columns.Columns.render|set_depends leaves out members of contents"),
     Mut("cleanup-forgets-dependants", "urwid/canvas.py", "CanvasCache.cleanup", "            for dependant in cls._deps.pop(widget, []):\n                cls.invalidate(dependant)\n", "            cls._deps.pop(widget, None)\n", "PAIR|canvas.CanvasCache.cleanup|dependency edges dropped without invalidating the dependants"),
